@@ -137,10 +137,13 @@ fn static_names_view() {
     assert!(owned == OwnedVarName::from(sv));
 }
 
-// (not run: CompactString's inline-asm `ensure_read` is reachable -- a construct Kani does not support; the normalising
-// constructors / from_compact are therefore NOT covered by C19's bounded claim)
+// (not run: with CompactString's no-op inline asm `ensure_read` stubbed by the identity it verifies, but takes 19 min;
+// the 2-byte and 3-byte variants below are the ones that run)
 // @C99 kani.cgi.normalising_constructors_uppercase bounded(ASCII names <= 3 bytes through From<String>, From<Box<str>>, From<Cow::Owned>, from_mut_str) thorough
+fn ensure_read_identity(value: usize) -> usize { value }
+
 #[kani::proof]
+#[kani::stub(compact_str::repr::ensure_read, ensure_read_identity)]
 #[kani::unwind(8)]
 fn normalising_constructors() {
     let a: [u8; 3] = kani::any();
@@ -161,4 +164,39 @@ fn normalising_constructors() {
     let mut i = 0;
     while i < 3 { if i < n { assert!(rb[i] == up(a[i])); } i += 1; }
     kani::cover!(n == 3 && a[0] == b'q' && which == 1);
+}
+
+// @C19 kani.cgi.normalising_constructors_small bounded(2-byte ASCII names through From<String> and From<Box<str>>; CompactString's no-op inline asm stubbed by the identity)
+#[kani::proof]
+#[kani::stub(compact_str::repr::ensure_read, ensure_read_identity)]
+#[kani::unwind(6)]
+fn normalising_constructors_small() {
+    let a: [u8; 2] = kani::any();
+    let s = ascii(&a, 2);
+    let boxed: bool = kani::any();
+    let owned = if boxed { OwnedVarName::from(Box::<str>::from(s)) } else { OwnedVarName::from(String::from(s)) };
+    let r: &str = owned.as_ref();
+    let rb = r.as_bytes();
+    assert!(rb.len() == 2 && rb[0] == up(a[0]) && rb[1] == up(a[1]));
+    kani::cover!(a[0] == b'q' && boxed);
+}
+
+// @C19 kani.cgi.normalising_constructors_all bounded(3-byte ASCII names through From<String>, From<Box<str>>, From<Cow::Owned> and from_mut_str; same stub)
+#[kani::proof]
+#[kani::stub(compact_str::repr::ensure_read, ensure_read_identity)]
+#[kani::unwind(6)]
+fn normalising_constructors_all() {
+    let a: [u8; 3] = kani::any();
+    let s = ascii(&a, 3);
+    let which: u8 = kani::any();
+    kani::assume(which < 4);
+    let owned = match which {
+        0 => OwnedVarName::from(String::from(s)),
+        1 => OwnedVarName::from(Box::<str>::from(s)),
+        2 => OwnedVarName::from(std::borrow::Cow::<str>::Owned(String::from(s))),
+        _ => { let mut t = String::from(s); OwnedVarName::from_mut_str(t.as_mut_str()) },
+    };
+    let r: &str = owned.as_ref();
+    let rb = r.as_bytes();
+    assert!(rb.len() == 3 && rb[0] == up(a[0]) && rb[1] == up(a[1]) && rb[2] == up(a[2]));
 }
